@@ -32,23 +32,24 @@ type task struct {
 }
 
 type Sched struct {
-	mu       sync.Mutex
-	tasks    []*task
-	byG      map[uint64]*task
-	Choose   func(n int, cur int) int // pick among n runnable tasks; cur = index of the task that ran last, or -1
-	Trace    func(decision int, task int, name string, site int)
-	last     *task
-	Decisions int
+	mu           sync.Mutex
+	tasks        []*task
+	byG          map[uint64]*task
+	TrustLast    bool // the system has no inter-task wakeups (no channels): skip the goroutine-id lookup
+	Choose       func(n int, cur int) int // pick among n runnable tasks; cur = index of the task that ran last, or -1
+	Trace        func(decision int, task int, name string, site int)
+	last         *task
+	Decisions    int
 	MaxDecisions int
-	Switches  int
-	Adopted   int
-	Deadlock  string
-	Panics    []string
-	heldBy    map[any]*task
-	running   int32
-	Overlap   int32 // tripwire: more than one task released at a time
-	stop      bool
-	SitesHit  map[int]int
+	Switches     int
+	Adopted      int
+	Deadlock     string
+	Panics       []string
+	heldBy       map[any]*task
+	running      int32
+	Overlap      int32 // tripwire: more than one task released at a time
+	stop         bool
+	SitesHit     map[int]int
 }
 
 var cur *Sched
@@ -71,6 +72,11 @@ func goid() uint64 {
 }
 
 func (s *Sched) me() *task {
+	if s.TrustLast && s.last != nil {
+		// no task is ever woken by another one in this system: the running task is
+		// the one the scheduler released last
+		return s.last
+	}
 	g := goid()
 	s.mu.Lock()
 	t := s.byG[g]
@@ -94,7 +100,11 @@ func Go(name string, fn func()) {
 	s.mu.Lock()
 	t := &task{id: len(s.tasks), name: name, wake: make(chan struct{})}
 	s.tasks = append(s.tasks, t)
+	parent := s.byG[goid()]
 	s.mu.Unlock()
+	if parent != nil {
+		hbFork(parent.id, t.id)
+	}
 	go func() {
 		s.mu.Lock()
 		s.byG[goid()] = t
@@ -185,9 +195,13 @@ func Lock(m locker, site int) {
 		s.mu.Unlock()
 		s.park(t, site)
 	}
+	hbAcquire(t, m)
 }
 
 func Unlock(m locker, site int) {
+	if s := cur; s != nil {
+		hbRelease(s.me(), m)
+	}
 	m.Unlock()
 	s := cur
 	if s == nil {
@@ -222,9 +236,13 @@ func RLock(m rlocker, site int) {
 		s.mu.Unlock()
 		s.park(t, site)
 	}
+	hbAcquire(t, m)
 }
 
 func RUnlock(m rlocker, site int) {
+	if s := cur; s != nil {
+		hbRelease(s.me(), m)
+	}
 	m.RUnlock()
 	s := cur
 	if s == nil {
@@ -267,9 +285,6 @@ func Run(t *testing.T, s *Sched, main func()) {
 		})
 		for {
 			synctest.Wait()
-			if n := atomic.LoadInt32(&s.running); n != 0 {
-				atomic.StoreInt32(&s.Overlap, n)
-			}
 			if mainDone || len(s.Panics) > 0 {
 				break
 			}
